@@ -2,7 +2,7 @@ from __future__ import annotations
 
 from datetime import timedelta
 from enum import Enum
-from typing import TYPE_CHECKING
+from typing import TYPE_CHECKING, Coroutine
 
 from repid.main import Repid
 
@@ -55,11 +55,14 @@ class Message:
     def category(self) -> MessageCategory:
         return self._category
 
+    async def _dispose(self, broker_call: Coroutine) -> None:
+        await broker_call
+
     async def ack(self) -> None:
         if self.__read_only:
             raise ValueError("Message is read only.")
 
-        await self._connection.message_broker.ack(self._key)
+        await self._dispose(self._connection.message_broker.ack(self._key))
 
         self.__read_only = True
 
@@ -70,7 +73,7 @@ class Message:
         if self.__read_only:
             raise ValueError("Message is read only.")
 
-        await self._connection.message_broker.nack(self._key)
+        await self._dispose(self._connection.message_broker.nack(self._key))
 
         self.__read_only = True
 
@@ -78,7 +81,7 @@ class Message:
         if self.__read_only:
             raise ValueError("Message is read only.")
 
-        await self._connection.message_broker.reject(self._key)
+        await self._dispose(self._connection.message_broker.reject(self._key))
 
         self.__read_only = True
 
@@ -86,10 +89,12 @@ class Message:
         if self.__read_only:
             raise ValueError("Message is read only.")
 
-        await self._connection.message_broker.requeue(
-            self._key,
-            self.raw_payload,
-            self.parameters._prepare_reschedule(),
+        await self._dispose(
+            self._connection.message_broker.requeue(
+                self._key,
+                self.raw_payload,
+                self.parameters._prepare_reschedule(),
+            ),
         )
 
         self.__read_only = True
@@ -104,11 +109,13 @@ class Message:
         if self.parameters.retries.already_tried >= self.parameters.retries.max_amount:
             raise ValueError("Max retry limit reached.")
 
-        await self._connection.message_broker.requeue(
-            self._key,
-            self.raw_payload,
-            self.parameters._prepare_retry(
-                next_retry=timedelta(seconds=0) if next_retry is None else next_retry,
+        await self._dispose(
+            self._connection.message_broker.requeue(
+                self._key,
+                self.raw_payload,
+                self.parameters._prepare_retry(
+                    next_retry=timedelta(seconds=0) if next_retry is None else next_retry,
+                ),
             ),
         )
 
@@ -121,11 +128,13 @@ class Message:
         if self.__read_only:
             raise ValueError("Message is read only.")
 
-        await self._connection.message_broker.requeue(
-            self._key,
-            self.raw_payload,
-            self.parameters._prepare_retry(
-                next_retry=timedelta(seconds=0) if next_retry is None else next_retry,
+        await self._dispose(
+            self._connection.message_broker.requeue(
+                self._key,
+                self.raw_payload,
+                self.parameters._prepare_retry(
+                    next_retry=timedelta(seconds=0) if next_retry is None else next_retry,
+                ),
             ),
         )
 
